@@ -88,6 +88,23 @@ def explicit_tagged_unsigned_member(text):
     return False
 
 
+# one fixed module so that every leaf kind the options touch is exercised in every run, whatever the seed
+COVER_TEXT = """WFX DEFINITIONS AUTOMATIC TAGS ::= BEGIN
+  E ::= ENUMERATED { red(0), green(1), blue(5), ..., pink(128) }
+  R ::= REAL
+  BS ::= BIT STRING (SIZE(0..16))
+  Rec ::= SEQUENCE { e E, r REAL OPTIONAL, i INTEGER DEFAULT 0, b BIT STRING, o OBJECT IDENTIFIER, s UTF8String, t GeneralizedTime OPTIONAL, n INTEGER (-70000..70000), ..., x INTEGER (0..255) OPTIONAL }
+  Ch ::= CHOICE { a Rec, b E, c SEQUENCE OF E, d NULL, f SEQUENCE { g BOOLEAN, h Ch2 }, ... }
+  Ch2 ::= CHOICE { p INTEGER, q SEQUENCE { r1 REAL, e1 E } }
+  L ::= SEQUENCE (SIZE(0..3)) OF Ch
+END
+"""
+
+
+def cover_module():
+    return {"name": "WFX", "default": "AUTOMATIC", "defs": [(n, None) for n in ("E", "R", "BS", "Rec", "Ch", "Ch2", "L")], "trees": {}, "text": COVER_TEXT, "wide": True}
+
+
 def der_int(v, tag="02"):
     n = 1
     while not (-(1 << (8 * n - 1)) <= v < (1 << (8 * n - 1))):
@@ -407,13 +424,20 @@ def main(tier):
     if not ok or ndis != nthm or gate:
         run.violation("proof:Properties_C13", {"what": "Coq development does not build or an obligation is open",
                                                "log_tail": (out if not ok else plog)[-2000:], "grep_gate": gate}, no_input=True)
+    coqchk = None
+    if tier == "thorough" and ok:
+        rck, ko = sh("timeout 900 coqchk -silent -o -Q %s A1 A1.Props.Properties_C13" % COQ, timeout=1000)
+        mm = re.search(r"\* Axioms:\s*(.*?)\n\s*\n", ko, flags=re.S)
+        coqchk = {"rc": rck, "axioms": (mm.group(1).strip() if mm else "?")}
+        if rck != 0 or coqchk["axioms"] != "<none>":
+            run.violation("proof:coqchk", {"what": "coqchk rejects the compiled property file or reports axioms", "log_tail": ko[-1500:]}, no_input=True)
     quick = tier == "quick"
     optsets = list(QUICK_SETS) if quick else all_subsets(rng)
     try:
         nm, nt, nv = (6, 5, 6) if quick else (4, 5, 10)
         mods, cases = build_corpus(run, rng, nm, nt, nv, tier, opts=BASE, tag="opt0")
         wg = WGen(rng, features=WIDE_FEATURES)
-        wmods = [wg.module("W%d" % i, 5) for i in range(5 if quick else 4)] + [witness_module(), witness2_module()]
+        wmods = [wg.module("W%d" % i, 5) for i in range(5 if quick else 4)] + [cover_module(), witness_module(), witness2_module()]
         build_modules(wmods, tag="wopt0", opts=BASE)
         mv = build_variants(mods, optsets, jobs=4)
         wv = build_variants(wmods, optsets, jobs=4, prefix="wopt")
@@ -432,8 +456,9 @@ def main(tier):
                     run.count("built")
                 elif not base_ok:
                     run.count("not_built_in_baseline_either")
-                elif "-fcompound-names" not in var.opts:
-                    run.count("not_built_without_compound_names")
+                elif "-fcompound-names" not in var.opts and m.get("asn1c_rc") and "-fcompound-names" in m.get("asn1c_out", ""):
+                    # asn1c itself refuses: `FATAL: Use "-fcompound-names" flag to asn1c to resolve name clashes` (C10's business)
+                    run.count("not_built_without_compound_names(asn1c diagnoses the name clash)")
                 elif m.get("asn1c_rc") == 0 and "-fno-constraints" in var.opts and dangling_member_constraints(m):
                     run.known_finding("C13-no-constraints-unbuildable", mname + " " + var.label())
                 else:
@@ -530,7 +555,7 @@ def main(tier):
           "builds made with -no-gen-OER / -no-gen-PER are linked with the full skeleton archive and are not asked for the disabled syntax"]
     return run.finish("proof", (nthm, ndis), trusted_base=tb,
                       checker_cmd="make -C /verif all && coqc -Q coq A1 coq/Props/Properties_C13.v",
-                      extra_cov={"theorems": names, "modules": len(mods), "wide_modules": len(wmods), "option_sets": [" ".join(v.opts) for v in variants],
+                      extra_cov={"theorems": names, "coqchk": coqchk, "driver_notes": run.notes[:12], "modules": len(mods), "wide_modules": len(wmods), "option_sets": [" ".join(v.opts) for v in variants],
                                  "rule": "one case = one driver command line (value x syntax encoded by every build, or one distinct output decoded by every build); distinct command lines",
                                  "traces_validated_against_impl": run.cov["evaluations"]},
                       assumptions=["theorems cover the INTEGER/ENUMERATED native-vs-wide leaf (DER, BER decode, the conversions used by PER/OER); every other effect of the options is covered by the tie only",
